@@ -30,10 +30,33 @@ def history(rng, tier, uuid_names):
     w.xcheck_all()
     return w.lines
 
+def source_name_case(rng):
+    """sources whose names are legal but look like patterns (regular-expression metacharacters), attached to one holder together with the
+    names such a pattern would also match: the lookup by name on the holder must return exactly the source of that name"""
+    w = World(rng, names=PLAIN)
+    w.open('ow')
+    b = w.mk('B', None, name='b')
+    names = ['..', 'ab', 'a.c', 'abc', 'x*', 'xx', 'x', 'run[1]', 'run1', 'trial (1', 'a|b', 'a', '^a', 'a$', 'a+', 'aa', '\\d', '7', '.*']
+    rng.shuffle(names)
+    srcs = [w.mk('O', b, name=n) for n in names[:rng.randint(8, len(names))]]
+    holders = [w.mk('A', b, name='arr'), w.mk('T', b, name='tag'), w.mk('G', b, name='grp')]
+    for h in holders:
+        for s_ in srcs:
+            if rng.random() < 0.75:
+                w.emit('link src %s handle %s' % (h.slot, s_.slot))
+        w.emit('xlinks src %s' % h.slot)
+    w.emit('xcheck O %s' % b.slot)
+    w.reopen('rw')
+    for h in holders:
+        w.emit('xlinks src %s' % h.slot)
+    return w.lines
+
 def cases(tier, seed, rng):
     from vlib.runner import Case
     n = 60 if tier == 'quick' else 1500
-    return [Case(history(rng, tier, k % 3 != 0), 'gen:names' + ('-uuid' if k % 3 != 0 else '')) for k in range(n)]
+    out = [Case(history(rng, tier, k % 3 != 0), 'gen:names' + ('-uuid' if k % 3 != 0 else '')) for k in range(n)]
+    out += [Case(source_name_case(rng), 'gen:pattern-like-source-names') for _ in range(4 if tier == 'quick' else 60)]
+    return out
 
 def nontrivial(case, tags):
     return sum(1 for t in tags if t.startswith('xcheck') or t.startswith('xlinks')) >= 2
